@@ -1118,6 +1118,11 @@ func ruleC14NestedFailureWaits(c *Ctx) {
 						failed = true
 					}
 				}
+				// any other failure exit behind the nested exec (a result of the wrong shape, say) counts too: the nested
+				// query ran, its calls may still be running
+				if ei := errIdx(f); ei >= 0 && ei < len(p.Ret) && !p.Ret[ei].Nil && p.Ret[ei].NonNil {
+					failed = true
+				}
 				if !failed {
 					continue
 				}
@@ -1178,10 +1183,13 @@ func ruleC14AwaitWaits(c *Ctx) {
 		}
 		ok, why, k := true, "", 0
 		for _, p := range paths {
-			if p.Exit != "return" || len(p.Ret) != 1 || !p.Ret[0].Nil {
+			if p.Exit != "return" || len(p.Ret) != 1 {
 				continue
 			}
-			k++
+			if p.Ret[0].Nil {
+				k++
+			}
+			// (failure paths as well: the arguments that were read before one of them was refused may have launched calls)
 			iEval, iWait := -1, -1
 			for i, e := range p.Effects {
 				if e.Kind == "call" && e.Callee == "FuncArgReader" {
@@ -1191,8 +1199,11 @@ func ruleC14AwaitWaits(c *Ctx) {
 					iWait = i
 				}
 			}
-			if iEval < 0 || iWait < iEval {
+			if p.Ret[0].Nil && (iEval < 0 || iWait < iEval) {
 				ok, why = false, "the AWAIT post-processor hands its value over without awaiting the calls its argument launched: AWAIT(ASYNC.f(x)) yields NULL and races with the call"
+			}
+			if !p.Ret[0].Nil && iEval >= 0 && iWait < iEval {
+				ok, why = false, "the AWAIT post-processor returns an error of its arguments without awaiting the calls the arguments launched: with AWAIT(ASYNC.f(x), RAISE('x')) Exec returns while f is still running"
 			}
 		}
 		if k == 0 {
